@@ -1,3 +1,3 @@
 #!/bin/sh
 # replays this counterexample against the real build
-cd /repo && VERIF_SCRIPT=/verif/replays/C06/VHarnessSwapC06_27d263e2_0/script.json GOFLAGS=-mod=mod GOPROXY=off go test -vet=off -count=1 -overlay /verif/replays/C06/VHarnessSwapC06_27d263e2_0/overlay.json -run ^TestVerifReplay_VHarnessSwapC06$ -v ./mint
+cd /tmp/seedrepo_C06 && VERIF_SCRIPT=/verif/replays/C06/VHarnessSwapC06_27d263e2_0/script.json VERIF_RAW_SALT=0 GOFLAGS=-mod=mod GOPROXY=off go test -vet=off -count=1 -overlay /verif/replays/C06/VHarnessSwapC06_27d263e2_0/overlay.json -run ^TestVerifReplay_VHarnessSwapC06$ -v ./mint
